@@ -16,6 +16,7 @@ package main
 import (
 	"fmt"
 	"math/big"
+	"math/bits"
 	"os"
 	"path/filepath"
 	"sort"
@@ -921,6 +922,7 @@ func c09CompileProg(p c09Prog, k c09Cfg) (circ *circuit.Circuit, errMsg string) 
 	params.OptPruneGates = k.prune
 	params.CircMultArrayTreshold = k.thr
 	params.Warn.DisableAll()
+	params.PkgPath = []string{filepath.Join(repoRoot(), "pkg")}
 	defer params.Close()
 	msg := c09Try(func() {
 		var err error
@@ -1885,6 +1887,138 @@ func c09LitDivs(c *Ctx) {
 	}
 }
 
+// c09Builtins: the builders that are not reachable from plain operators: the
+// native("hamming") builtin (pkg encoding/binary HammingDistance ->
+// circuits.Hamming, the only producer of 1-bit + 1-bit -> 2-bit additions)
+// and the native circuit files of pkg/math (add64/sub64/mul64/div64.circ,
+// embedded through the Circ instruction).  Every configuration is compared
+// with a Go reference (hence with every other configuration); exhaustive for
+// <= 16 input bits.
+type c09BuiltinReplay struct {
+	Seed    uint64 `json:"seed"`
+	Builtin string `json:"builtin"`
+	Source  string `json:"source"`
+	Config  string `json:"config"`
+	A       string `json:"a,omitempty"`
+	B       string `json:"b,omitempty"`
+	Got     string `json:"got,omitempty"`
+	Want    string `json:"want,omitempty"`
+	Failing int    `json:"failing_vectors,omitempty"`
+	Vectors int    `json:"vectors,omitempty"`
+	Error   string `json:"error,omitempty"`
+}
+
+func c09Builtins(c *Ctx) {
+	type bi struct {
+		name, tag string
+		w         int
+		src       string
+		ref       func(a, b uint64) (uint64, bool)
+	}
+	var list []bi
+	for _, w := range []int{2, 3, 8, 13, 32} {
+		w := w
+		list = append(list, bi{"hamming", fmt.Sprintf("hamming:uw%d", w), w,
+			fmt.Sprintf("package main\n\nimport (\n\t\"encoding/binary\"\n)\n\nfunc main(a, b uint%d) uint%d {\n\treturn binary.HammingDistance(a, b)\n}\n", w, w),
+			func(a, b uint64) (uint64, bool) { return uint64(bits.OnesCount64(a ^ b)), true }})
+	}
+	// hamming of operands of different widths, and feeding further arithmetic
+	list = append(list, bi{"hamming", "hamming:uw8+1", 8,
+		"package main\n\nimport (\n\t\"encoding/binary\"\n)\n\nfunc main(a, b uint8) uint8 {\n\treturn binary.HammingDistance(a, b) + 1\n}\n",
+		func(a, b uint64) (uint64, bool) { return uint64(bits.OnesCount64(a^b)) + 1, true }})
+	m64 := func(fn, expr string, ref func(a, b uint64) (uint64, bool)) {
+		list = append(list, bi{"math." + fn, "math." + fn, 64,
+			fmt.Sprintf("package main\n\nimport (\n\t\"math\"\n)\n\nfunc main(a, b uint64) uint64 {\n\treturn math.%s(a, b)\n}\n", fn), ref})
+	}
+	m64("AddUint64", "+", func(a, b uint64) (uint64, bool) { return a + b, true })
+	m64("SubUint64", "-", func(a, b uint64) (uint64, bool) { return a - b, true })
+	m64("MulUint64", "*", func(a, b uint64) (uint64, bool) { return a * b, true })
+	m64("DivUint64", "/", func(a, b uint64) (uint64, bool) {
+		// pkg/math/div64.circ is a signed 64-bit divider (the same circuit file for every
+		// configuration): the reference is the truncated int64 quotient
+		if b == 0 || (int64(a) == -1<<63 && int64(b) == -1) {
+			return 0, false
+		}
+		return uint64(int64(a) / int64(b)), true
+	})
+	var cfgs []c09Cfg
+	for _, prune := range []bool{false, true} {
+		for _, thr := range []int{0, 8, 21, 64} {
+			for _, tgt := range []utils.Target{utils.TargetYao, utils.TargetGMW} {
+				cfgs = append(cfgs, c09Cfg{prune, thr, tgt})
+			}
+		}
+	}
+	devnull, _ := os.OpenFile(os.DevNull, os.O_WRONLY, 0)
+	saved := os.Stdout
+	if devnull != nil {
+		os.Stdout = devnull
+		defer func() { os.Stdout = saved; devnull.Close() }()
+	}
+	r := c.rng.Fork()
+	for _, b := range list {
+		c.Hist("builtin:" + b.tag)
+		// vectors (a, b)
+		var vs [][2]uint64
+		mask := uint64(1)<<uint(b.w) - 1
+		if b.w == 64 {
+			mask = ^uint64(0)
+		}
+		if 2*b.w <= 16 {
+			for a := uint64(0); a <= mask; a++ {
+				for bb := uint64(0); bb <= mask; bb++ {
+					vs = append(vs, [2]uint64{a, bb})
+				}
+			}
+		} else {
+			vs = append(vs, [2]uint64{0, 0}, [2]uint64{0, mask}, [2]uint64{mask, 0}, [2]uint64{mask, mask},
+				[2]uint64{1, 0}, [2]uint64{0, 3 & mask}, [2]uint64{mask, 1}, [2]uint64{mask >> 1, mask})
+			for len(vs) < 64 {
+				vs = append(vs, [2]uint64{r.U64() & mask, r.U64() & mask})
+			}
+		}
+		prog := c09Prog{Name: "builtin:" + b.tag, Src: b.src}
+		for _, k := range cfgs {
+			ckey := fmt.Sprintf("prune=%v:thr=%d:%s", k.prune, k.thr, k.tgt)
+			rp := c09BuiltinReplay{Seed: c.Seed, Builtin: b.tag, Source: b.src, Config: k.String(), Vectors: len(vs)}
+			circ, e := c09CompileProg(prog, k)
+			c.Eval(prog.Name+"|"+k.String(), true)
+			if e != "" {
+				rp.Error = e
+				c.Fail("c09:prog:builtin:"+b.name+":does-not-compile:"+ckey, "a program using a builtin/native circuit does not compile under this configuration", rp)
+				continue
+			}
+			nfail := 0
+			for _, v := range vs {
+				want, ok := b.ref(v[0], v[1])
+				if !ok {
+					continue
+				}
+				want &= mask
+				var got uint64
+				msg := c09Try(func() {
+					res, err := circ.Compute([]*big.Int{new(big.Int).SetUint64(v[0]), new(big.Int).SetUint64(v[1])})
+					if err != nil {
+						panic(err)
+					}
+					got = res[0].Uint64()
+				})
+				if msg != "" || got != want {
+					if nfail == 0 {
+						rp.A, rp.B, rp.Got, rp.Want, rp.Error = fmt.Sprint(v[0]), fmt.Sprint(v[1]), fmt.Sprint(got), fmt.Sprint(want), msg
+					}
+					nfail++
+				}
+			}
+			if nfail > 0 {
+				rp.Failing = nfail
+				c.Fail("c09:prog:builtin:"+b.name+":output-differs:"+ckey,
+					fmt.Sprintf("%s(%s, %s) = %s under %s, want %s: the compiled builtin depends on the configuration or is wrong", b.tag, rp.A, rp.B, rp.Got, k, rp.Want), rp)
+			}
+		}
+	}
+}
+
 func indexOf(l []int, v int) int {
 	for i, x := range l {
 		if x == v {
@@ -1908,6 +2042,7 @@ func runC09(c *Ctx) error {
 		return err
 	}
 	c09LitDivs(c)
+	c09Builtins(c)
 	t3 := time.Now()
 	err := c09Progs(c)
 	c.Note("graphs %.1fs, deep chains %.1fs, divisions %.1fs, programs %.1fs", t1.Sub(t0).Seconds(), t2.Sub(t1).Seconds(), t3.Sub(t2).Seconds(), time.Since(t3).Seconds())
